@@ -347,6 +347,13 @@ EXTRA = {
  "C08": "The bodies of CompositeTransform.__init__/_cascade/forward/inverse and InverseTransform.__init__/forward/inverse are "
         "regenerated from transforms/base.py on every run and proved equal to the model's combinators (the inverse wrapper "
         "stores exactly its argument); stacks of up to four inverse wrappers are always among the programs.",
+ "C09": "ADDED: for the rational-quadratic family the assembly IS now proved (C09_rq_whole_spline_is_an_increasing_bijection): for "
+        "every accepted configuration and ALL unnormalised parameters the knot vectors built by softmax / affine / cumulative sums / "
+        "scaling / pinning are strictly increasing from one end of the box to the other, every input of the box falls into a bin "
+        "with positive width, height and end derivatives, and the whole spline is a strictly increasing bijection of [left, right] "
+        "onto [bottom, top] with pinned end points whose inverse branch is its two-sided inverse with negated log-abs-det; the "
+        "default configuration meets the hypotheses for any box and up to 1000 bins. Still by correspondence / search only: the "
+        "assembly of the linear, quadratic and cubic families and the cubic bin.",
  "C11": "The search also covers weight_and_logabsdet(), weight_inverse_and_logabsdet() and cached passes in both orders.",
  "C12": "The four unconstrained_*_spline wrappers are regenerated statement by statement into per-element functions and "
         "proved to hand every configured value to the inner spline whatever the rest of the batch holds; the search adds "
